@@ -1,5 +1,5 @@
 (* C09: witnesses on the faithful model for the two history dependences that are
-   recorded as findings (F9, F19). *)
+   recorded as findings (F9, F25). *)
 From Coq Require Import List NArith Bool.
 From Verif Require Import Model.Speaker.
 Local Open Scope N_scope.
@@ -32,19 +32,19 @@ Proof.
   split; [vm_compute; reflexivity|]. intros [H _]. specialize (H 0). vm_compute in H. exact H.
 Qed.
 
-(* F19: memberlist disabled; nodes 1 and 2 appear after the services were
+(* F25: memberlist disabled; nodes 1 and 2 appear after the services were
    processed; their first event requests no re-sync although they are now
    candidates of the election (and node 2 wins it under env_rev) *)
-Definition f19_history : list sev :=
+Definition f25_history : list sev :=
   [ ENode (w_node 0);
     ECfg (w_cfg [ {| la_nodes := [0; 1; 2]; la_ifs := []; la_all := true |} ]);
     ESvc 0 (Some (w_svc 169090561));
     ENode (w_node 1); ENode (w_node 2) ].
 
-Lemma f19_refuted :
-  let ws := srun env_rev None f19_history in
-  forallb (event_ok env_rev) f19_history = true /\
-  stale_after env_rev ([], sinit None) false f19_history = true /\
+Lemma f25_refuted :
+  let ws := srun env_rev None f25_history in
+  forallb (event_ok env_rev) f25_history = true /\
+  stale_after env_rev ([], sinit None) false f25_history = true /\
   s_l2 (snd ws) 0 <> None /\ s_l2 (fresh env_rev (snd ws) (fst ws)) 0 = None /\
   ~ announced_equiv (snd ws) (fresh env_rev (snd ws) (fst ws)).
 Proof.
@@ -53,7 +53,7 @@ Proof.
 Qed.
 
 (* with the re-sync a fix would request, the same history converges *)
-Lemma f19_with_resync :
-  let ws := srun env_rev None (f19_history ++ [EResync]) in
-  s_l2 (snd ws) 0 = None /\ stale_after env_rev ([], sinit None) false (f19_history ++ [EResync]) = false.
+Lemma f25_with_resync :
+  let ws := srun env_rev None (f25_history ++ [EResync]) in
+  s_l2 (snd ws) 0 = None /\ stale_after env_rev ([], sinit None) false (f25_history ++ [EResync]) = false.
 Proof. vm_compute. split; reflexivity. Qed.
